@@ -27,6 +27,12 @@ package tables
 // permission is withheld (everything else granted) and the real gate must answer 403; and every
 // table SQLite opens must appear in the recorded checks of the fully-granted run.
 //
+// Deep and wide statements (deepStatements): one protected table under 50 … 1000 levels of each nesting
+// construct of the grammar, or at the end of an equally long sibling list, in every statement position —
+// the same correspondence lines and the same oracle (by construction the statement reads that table, at a
+// depth the reflection walk measures; EXPLAIN confirms it where SQLite compiles the text), both gates,
+// and a part end to end.  An authorization walk with a depth / node budget fails here.
+//
 // Multi-statement @sql requests (2–4 statements: same and different tables, mixed kinds; a fixed corpus
 // first): for each (table, permission) that ANY statement of the request needs — the permission being
 // the one that statement's own kind calls for — exactly that one is withheld and the whole request must
@@ -206,6 +212,7 @@ func c15Dump(v reflect.Value, b *strings.Builder, types map[reflect.Type]bool) {
 type c15Ref struct {
 	name string // as Tables() is specified to report it: schema-qualified when the source was
 	top  string // the statement-level field under which the reference sits ("" = the statement)
+	lvl  int    // number of AST levels between the statement node and the reference
 }
 
 func c15QualName(schema, name string) string {
@@ -217,10 +224,10 @@ func c15QualName(schema, name string) string {
 }
 
 // c15Walk collects every *ast.TableRef reachable from v through ANY field (not via Children()).
-func c15Walk(v reflect.Value, top string, skip *ast.TableRef, out *[]c15Ref) {
+func c15Walk(v reflect.Value, top string, skip *ast.TableRef, lvl int, out *[]c15Ref) {
 	if tr, ok := v.Interface().(*ast.TableRef); ok {
 		if tr != skip {
-			*out = append(*out, c15Ref{name: c15QualName(tr.Schema, tr.Name), top: top})
+			*out = append(*out, c15Ref{name: c15QualName(tr.Schema, tr.Name), top: top, lvl: lvl})
 		}
 
 		return
@@ -241,7 +248,7 @@ func c15Walk(v reflect.Value, top string, skip *ast.TableRef, out *[]c15Ref) {
 		}
 
 		for _, k := range kids {
-			c15Walk(k, t, skip, out)
+			c15Walk(k, t, skip, lvl+1, out)
 		}
 	}
 }
@@ -252,6 +259,7 @@ type c15Need struct {
 	table string // base table name the permission record is keyed by
 	mode  string // r | w | a
 	class string // failure class if this need is not enforced
+	lvl   int    // AST level of the reference (0 = the statement's own target)
 }
 
 func c15Base(name string) string {
@@ -271,8 +279,9 @@ func c15Needs(stmt ast.Statement) (needs []c15Need, writePerm string, ddl bool) 
 	)
 
 	tname := reflect.TypeOf(stmt).Elem().Name()
+	lvl := 0
 	add := func(name, mode, class string) {
-		needs = append(needs, c15Need{table: c15Base(name), mode: mode, class: class})
+		needs = append(needs, c15Need{table: c15Base(name), mode: mode, class: class, lvl: lvl})
 	}
 	tclass := "uncovered:" + tname + ".target"
 
@@ -317,9 +326,10 @@ func c15Needs(stmt ast.Statement) (needs []c15Need, writePerm string, ddl bool) 
 		add(c15QualName(target.Schema, target.Name), mode, cls)
 	}
 
-	c15Walk(reflect.ValueOf(stmt), "", target, &refs)
+	c15Walk(reflect.ValueOf(stmt), "", target, 0, &refs)
 
 	for _, r := range refs {
+		lvl = r.lvl
 		add(r.name, "r", "uncovered:"+tname+"."+r.top)
 	}
 
@@ -1216,6 +1226,278 @@ var c15Corpus = []string{
 	`PG:DROP TABLE t0 CASCADE`,
 }
 
+// ------------------------------------------------------------------ deep and wide statements
+
+// The grammar-driven generator above stops at six expression levels.  A walk that gives up below
+// some depth, or after some number of nodes or siblings, only lets a reference through past that
+// bound, so this stream puts one protected table at the far end of 50 … 1000 levels of every
+// nesting construct of the grammar (and at the end of equally long sibling lists).
+var c15DeepLevels = []int{50, 150, 200, 250, 400, 1000}
+
+// shapes that wrap an expression, level by level
+var c15DeepExprShapes = []string{"lchain", "rchain", "unary", "paren", "func", "func2", "cast", "case-else", "case-when",
+	"case-operand", "collate", "mixed", "subquery", "exists", "in-select"}
+
+// shapes that are a statement of their own / sibling lists with the reference in last position
+var c15DeepStmtShapes = []string{"from-subquery", "join", "join-paren", "compound", "compound-paren", "cte-nested", "cte-wide",
+	"wide-columns", "wide-in", "wide-args", "wide-values", "wide-case", "wide-orderby"}
+
+// one self-delimiting level for the "mixed" shape: prefix, suffix
+var c15DeepMixed = [][2]string{
+	{"(", ")"}, {"abs(", ")"}, {"(", " + 1)"}, {"(1 - ", ")"}, {"CAST(", " AS TEXT)"},
+	{"CASE WHEN a = 1 THEN 1 ELSE ", " END"}, {"CASE WHEN ", " THEN 1 END"}, {"CASE ", " WHEN 1 THEN 1 ELSE 0 END"},
+	{"(NOT ", ")"}, {"(", " IS NULL)"}, {"(", " BETWEEN 0 AND 9)"}, {"(5 BETWEEN ", " AND 9)"}, {"(5 BETWEEN 0 AND ", ")"},
+	{"(", " IN (1, 2))"}, {"(1 IN (2, ", "))"}, {"(", " LIKE 'a')"}, {"('a' LIKE ", ")"}, {"coalesce(1, ", ")"},
+	{"(SELECT ", ")"}, {"EXISTS (SELECT 1 WHERE ", ")"}, {"(", " COLLATE NOCASE)"}, {"(- ", ")"}, {"(", " IS NOT 3)"},
+	{"(", " AND 1)"}, {"(0 OR ", ")"}, {"(", " || 's')"}, {"max(1, ", ")"}, {"(SELECT 1 ORDER BY ", ")"},
+	{"(SELECT 1 LIMIT ", ")"}, {"(1 IN (SELECT ", "))"}, {"(SELECT count(*) FILTER (WHERE ", "))"},
+}
+
+// deepInner: the innermost expression — the only place the protected table tb is named.
+func (g *c15Gen) deepInner(tb string) string {
+	switch g.r.Intn(4) {
+	case 0:
+		return "(SELECT max(x) FROM " + tb + ")"
+	case 1:
+		return "EXISTS (SELECT 1 FROM " + tb + ")"
+	case 2:
+		return "1 IN (SELECT x FROM " + tb + ")"
+	default:
+		return "(SELECT x FROM " + tb + " LIMIT 1)"
+	}
+}
+
+// deepExpr puts x under n levels of one expression shape.
+func (g *c15Gen) deepExpr(shape string, n int, x string) string {
+	pre := make([]string, n)
+	suf := make([]string, n)
+
+	lit := g.pick([]string{"''", "1", "0", "'s'"})
+	op := g.pick([]string{"||", "+", "-", "*", "AND", "OR", "=", "<", "|"})
+
+	var one [2]string
+
+	switch shape {
+	case "lchain":
+		one = [2]string{"", " " + op + " " + lit}
+	case "rchain":
+		one = [2]string{lit + " " + op + " (", ")"}
+	case "unary":
+		one = [2]string{g.pick([]string{"NOT ", "- ", "+ ", "~ "}), ""}
+	case "paren":
+		one = [2]string{"(", ")"}
+	case "func":
+		one = [2]string{g.pick([]string{"abs", "lower", "length", "typeof"}) + "(", ")"}
+	case "func2":
+		one = [2]string{"coalesce(", ", " + lit + ")"}
+		if g.p(50) {
+			one = [2]string{"ifnull(" + lit + ", ", ")"}
+		}
+	case "cast":
+		one = [2]string{"CAST(", " AS " + g.pick([]string{"TEXT", "INTEGER"}) + ")"}
+	case "case-else":
+		one = [2]string{"CASE WHEN a = 1 THEN 1 ELSE ", " END"}
+	case "case-when":
+		one = [2]string{"CASE WHEN ", " THEN 1 ELSE 0 END"}
+		if g.p(50) {
+			one = [2]string{"CASE WHEN a = 1 THEN ", " END"}
+		}
+	case "case-operand":
+		one = [2]string{"CASE ", " WHEN 1 THEN 1 END"}
+	case "collate":
+		one = [2]string{"", " COLLATE NOCASE"}
+	case "subquery":
+		one = [2]string{"(SELECT ", ")"}
+	case "exists":
+		one = [2]string{"EXISTS (SELECT 1 WHERE ", ")"}
+	case "in-select":
+		one = [2]string{"1 IN (SELECT 1 WHERE ", ")"}
+	}
+
+	for i := 0; i < n; i++ {
+		if shape == "mixed" {
+			one = c15DeepMixed[g.r.Intn(len(c15DeepMixed))]
+		}
+
+		pre[i], suf[n-1-i] = one[0], one[1]
+	}
+
+	return strings.Join(pre, "") + x + strings.Join(suf, "")
+}
+
+// deepCarry puts the expression e into a statement position.
+func (g *c15Gen) deepCarry(which int, e string) string {
+	o := g.pick([]string{"t0", "t1", "t2"})
+
+	switch which % 14 {
+	case 0:
+		return "SELECT " + e + " AS v"
+	case 1:
+		return "SELECT a FROM " + o + " WHERE " + e
+	case 2:
+		return "DELETE FROM " + o + " WHERE " + e
+	case 3:
+		return "UPDATE " + o + " SET a = " + e + " WHERE id = 1"
+	case 4:
+		return "INSERT INTO " + o + " (a) VALUES (" + e + ")"
+	case 5:
+		return "SELECT a FROM " + o + " ORDER BY " + e
+	case 6:
+		return "SELECT q0.a FROM " + o + " AS q0 JOIN t3 AS q1 ON " + e
+	case 7:
+		return "SELECT a FROM " + o + " GROUP BY a HAVING " + e
+	case 8:
+		return "INSERT INTO " + o + " (a) SELECT " + e
+	case 9:
+		return "UPDATE " + o + " SET a = 1 WHERE " + e
+	case 10:
+		return "DELETE FROM " + o + " WHERE id = 1 RETURNING " + e
+	case 11:
+		return "SELECT a FROM " + o + " LIMIT " + e
+	case 12:
+		return "INSERT INTO " + o + " (id, a) VALUES (1, 1) ON CONFLICT (id) DO UPDATE SET a = " + e
+	default:
+		return "WITH c AS (SELECT " + e + " AS v) SELECT v FROM c"
+	}
+}
+
+// deepStmt: statement-level nesting (FROM subqueries, joins, compound selects, CTEs) and sibling lists
+// of n entries with the protected reference last.
+func (g *c15Gen) deepStmt(shape string, n int, tb string) string {
+	var b strings.Builder
+
+	x := g.deepInner(tb)
+	num := func(i int) string { return strconv.Itoa(i) }
+
+	switch shape {
+	case "from-subquery":
+		b.WriteString("SELECT * FROM ")
+		b.WriteString(strings.Repeat("(SELECT * FROM ", n))
+		b.WriteString(tb)
+
+		for i := 0; i < n; i++ {
+			b.WriteString(") AS q" + num(i))
+		}
+	case "join":
+		// left-deep: the first item of the FROM clause is the deepest
+		j := g.pick([]string{" JOIN t0 AS q%d ON q%d.id = 1", " CROSS JOIN t1 AS q%d", " LEFT JOIN t2 AS q%d USING (id)", " NATURAL JOIN t3 AS q%d"})
+		b.WriteString("SELECT 1 FROM " + tb + " AS p0")
+
+		for i := 0; i < n; i++ {
+			if strings.Count(j, "%d") == 2 {
+				fmt.Fprintf(&b, j, i, i)
+			} else {
+				fmt.Fprintf(&b, j, i)
+			}
+		}
+	case "join-paren":
+		b.WriteString("SELECT 1 FROM ")
+
+		for i := 0; i < n; i++ {
+			b.WriteString("(t0 AS q" + num(i) + " JOIN ")
+		}
+
+		b.WriteString(tb + " AS p0")
+		b.WriteString(strings.Repeat(" ON 1 = 1)", n))
+	case "compound":
+		op := g.pick([]string{" UNION ALL ", " UNION ", " EXCEPT ", " INTERSECT "})
+		b.WriteString("SELECT x FROM " + tb)
+		b.WriteString(strings.Repeat(op+"SELECT 1", n))
+	case "compound-paren":
+		// each arm is a FROM subquery holding the rest of the chain
+		b.WriteString(strings.Repeat("SELECT 1 UNION ALL SELECT * FROM (", n))
+		b.WriteString("SELECT x FROM " + tb)
+
+		for i := 0; i < n; i++ {
+			b.WriteString(") AS q" + num(i))
+		}
+	case "cte-nested":
+		b.WriteString(strings.Repeat("WITH c AS (", n))
+		b.WriteString("SELECT x FROM " + tb)
+		b.WriteString(strings.Repeat(") SELECT * FROM c", n))
+	case "cte-wide":
+		b.WriteString("WITH ")
+
+		for i := 0; i < n; i++ {
+			b.WriteString("c" + num(i) + " AS (SELECT " + num(i) + " AS x), ")
+		}
+
+		b.WriteString("clast AS (SELECT x FROM " + tb + ") SELECT x FROM clast")
+	case "wide-columns":
+		b.WriteString("SELECT " + strings.Repeat("1, ", n) + x + " AS v FROM t0")
+	case "wide-in":
+		b.WriteString("SELECT a FROM t0 WHERE a IN (" + strings.Repeat("1, ", n) + x + ")")
+	case "wide-args":
+		b.WriteString("SELECT coalesce(" + strings.Repeat("NULL, ", n) + x + ")")
+	case "wide-values":
+		b.WriteString("INSERT INTO t0 (a) VALUES " + strings.Repeat("(1), ", n) + "(" + x + ")")
+	case "wide-case":
+		b.WriteString("SELECT CASE")
+
+		for i := 0; i < n; i++ {
+			b.WriteString(" WHEN a = " + num(i) + " THEN " + num(i))
+		}
+
+		b.WriteString(" WHEN " + x + " THEN 1 END FROM t0")
+	case "wide-orderby":
+		b.WriteString("SELECT a FROM t0 ORDER BY " + strings.Repeat("a, ", n) + x)
+	}
+
+	return b.String()
+}
+
+// deepStatements: per (shape, level) `per` statements; the first of an expression shape sits in a
+// plain SELECT (list or WHERE), the others in a position drawn at random.  The quick tier takes the
+// 1000-level statements of every third shape only (which third depends on VERIF_SEED): the real code
+// needs a good part of a second for one of them (Format indents quadratically).
+func (g *c15Gen) deepStatements(per int) []string {
+	var out []string
+
+	seq := 0
+	rot := g.r.Intn(3)
+	skip := func(n, i int) bool { return !verifh.Thorough() && n >= 1000 && i%3 != rot }
+
+	for _, n := range c15DeepLevels {
+		for si, shape := range c15DeepExprShapes {
+			if skip(n, si) {
+				continue
+			}
+
+			for k := 0; k < per; k++ {
+				tb := "secret"
+				if k > 0 && g.p(40) {
+					tb = g.pick(c15PlainTables)
+				}
+
+				which := seq % 2
+				if k > 0 {
+					which = g.r.Intn(14)
+				}
+
+				seq++
+				out = append(out, g.deepCarry(which, g.deepExpr(shape, n, g.deepInner(tb))))
+			}
+		}
+
+		for si, shape := range c15DeepStmtShapes {
+			if skip(n, si) {
+				continue
+			}
+
+			for k := 0; k < per; k++ {
+				tb := "secret"
+				if k > 0 && g.p(40) {
+					tb = g.pick(c15PlainTables)
+				}
+
+				out = append(out, g.deepStmt(shape, n, tb))
+			}
+		}
+	}
+
+	return out
+}
+
 // ------------------------------------------------------------------ multi-statement @sql requests
 
 var c15PlainTables = []string{"t0", "t1", "t2", "secret"}
@@ -1564,6 +1846,9 @@ func TestVerifC15(t *testing.T) {
 
 	reflTypes := map[reflect.Type]bool{}
 	seen := map[string]bool{}
+	deepRefs := map[string]bool{} // statements with a table reference more than 200 AST levels down
+	maxRefLevel := 0
+	explainMax := 0 // > 0: no EXPLAIN of texts longer than this (SQLite needs seconds to compile the longest deep statements)
 	nontrivial := map[string]bool{}
 
 	// deny messages of the @sql gate, to recover which check failed there
@@ -1723,7 +2008,17 @@ func TestVerifC15(t *testing.T) {
 
 		var allRefs []c15Ref
 
-		c15Walk(reflect.ValueOf(stmt), "", nil, &allRefs)
+		c15Walk(reflect.ValueOf(stmt), "", nil, 0, &allRefs)
+
+		for _, r := range allRefs {
+			if r.lvl > maxRefLevel {
+				maxRefLevel = r.lvl
+			}
+
+			if r.lvl > 200 {
+				deepRefs[key] = true
+			}
+		}
 
 		rs := make([]string, len(allRefs))
 		for i, r := range allRefs {
@@ -1764,7 +2059,8 @@ func TestVerifC15(t *testing.T) {
 			if !found {
 				stats.Inc("fail:" + n.class)
 				fails.Write(verifh.Failure{Class: n.class, What: "Tables() does not report a table the statement touches",
-					Input: key, Got: ustr + " = " + fmt.Sprint(usages), Want: n.table + ":" + n.mode})
+					Input: key, Got: ustr + " = " + fmt.Sprint(usages),
+					Want: n.table + ":" + n.mode + " (the reference is " + strconv.Itoa(n.lvl) + " AST levels below the statement)"})
 			}
 		}
 
@@ -1778,6 +2074,12 @@ func TestVerifC15(t *testing.T) {
 
 		if dialect == sqlparse.SQLite {
 			for _, txt := range []string{text, p.Format()} {
+				if explainMax > 0 && len(txt) > explainMax {
+					stats.Inc("explain_skipped_long")
+
+					continue
+				}
+
 				if opened, sw, ok := ex.explain(txt); ok {
 					evs = append(evs, evidence{opened, sw})
 					stats.Inc("explained")
@@ -1911,7 +2213,8 @@ func TestVerifC15(t *testing.T) {
 					fails.Write(verifh.Failure{Class: r.withheld.class,
 						What:  "statement allowed by the " + variant + " gate although a permission it needs was withheld",
 						Input: key, Got: "allowed; Tables()=" + fmt.Sprint(usages),
-						Want: "403 without " + r.withheld.mode + " on " + r.withheld.table})
+						Want: "403 without " + r.withheld.mode + " on " + r.withheld.table +
+							" (referenced " + strconv.Itoa(r.withheld.lvl) + " AST levels below the statement)"})
 				}
 
 				// (c) allowed ⇒ every need is held (random and full profiles)
@@ -2499,6 +2802,34 @@ func TestVerifC15(t *testing.T) {
 		one(sqlparse.PostgreSQL, q)
 	}
 
+	// ---- deep and wide statements: both gates on every one; a part end to end below
+	gd := &c15Gen{r: verifh.Rand(1517)}
+	explainMax = verifh.N(2500, 12000)
+
+	var deepE2E []string
+
+	for i, q := range gd.deepStatements(verifh.N(1, 3)) {
+		before := stats.M["parsed"]
+		dialect := sqlparse.SQLite
+
+		if i%5 == 4 {
+			dialect = sqlparse.PostgreSQL
+		}
+
+		stats.Inc("deep_statements")
+		one(dialect, q)
+
+		if stats.M["parsed"] > before {
+			stats.Inc("deep_parsed")
+
+			if dialect == sqlparse.SQLite && strings.HasPrefix(q, "SELECT") && len(deepE2E) < verifh.N(6, 40) && i%7 == 0 {
+				deepE2E = append(deepE2E, q)
+			}
+		}
+	}
+
+	explainMax = 0
+
 	n := verifh.N(3000, 24000)
 	g := &c15Gen{r: verifh.Rand(15)}
 
@@ -2542,6 +2873,11 @@ func TestVerifC15(t *testing.T) {
 		e2e(gb.batchTexts(true), i%2 == 1)
 	}
 
+	for i, q := range deepE2E {
+		stats.Inc("deep_e2e")
+		e2e([]string{q}, i%2 == 1)
+	}
+
 	stats.Add("batch_distinct_nontrivial", len(nontrivialBatch))
 
 	bw := verifh.Out("c15_batch_samples.json")
@@ -2583,6 +2919,8 @@ func TestVerifC15(t *testing.T) {
 	w.Close()
 
 	stats.Add("distinct_nontrivial", len(nontrivial))
+	stats.Add("deep_distinct_over_200_levels", len(deepRefs))
+	stats.Add("max_reference_level", maxRefLevel)
 	stats.Add("node_types_seen", len(reflTypes))
 }
 
